@@ -17,6 +17,7 @@ import (
 	"fmt"
 	"math/big"
 	"os"
+	"runtime/debug"
 	"strconv"
 	"strings"
 	"sync"
@@ -297,13 +298,34 @@ func (h *verifWHist) fieldsTokenRow(row map[string]interface{}, id int, mc *veri
 func verifWAlsoC11(mon []string) []string {
 	out := append([]string{}, mon...)
 	for _, m := range mon {
-		for _, pre := range []string{"C08|message-content|", "C08|poll-malformed|", "C08|reobs-malformed|", "C08|unknown-event|", "C09|batch-differs|"} {
+		for _, pre := range []string{"C08|message-content|", "C08|poll-malformed|", "C08|reobs-malformed|", "C08|unknown-event|"} {
 			if strings.HasPrefix(m, pre) {
 				out = append(out, "C11|pipeline-"+strings.SplitN(m, "|", 3)[1]+"|"+strings.SplitN(m, "|", 3)[2])
 			}
 		}
 	}
 	return out
+}
+
+// fieldsBatchMon: C11 inside the page loop - an event whose values do not fit is never kept, a fitting one of the token bridge
+// (attestations aside: their validity is C08 / C09's business) is never rejected
+func (h *verifWHist) fieldsBatchMon(hist string, from, to int32, buids []int) {
+	in := map[int]bool{}
+	for _, u := range buids {
+		in[u] = true
+	}
+	for i := int(from); i < int(to) && i < len(h.sim.log); i++ {
+		if i < 0 {
+			continue
+		}
+		e := h.sim.log[i]
+		switch {
+		case (!e.conv || e.index != 0) && in[e.uid]:
+			h.flag("C11", "pipeline-unfit-kept", fmt.Sprintf("%s: event %d whose values do not fit (%s) was converted and kept", hist, e.uid, e.what))
+		case e.conv && e.index == 0 && e.kind != "attest" && e.sender == 1 && !in[e.uid]:
+			h.flag("C11", "pipeline-fit-rejected", fmt.Sprintf("%s: event %d (target %d, sequence %d, level %d, %d payload bytes) fits but was not kept", hist, e.uid, e.target, e.seq, e.cl, len(e.payload)))
+		}
+	}
 }
 
 func verifWFieldsN() int {
@@ -332,7 +354,7 @@ func verifWFieldsHistories(out *verifWOut, seed uint64, wg *sync.WaitGroup, sem 
 			func() {
 				defer func() {
 					if p := recover(); p != nil {
-						row = map[string]interface{}{"k": "hist", "id": verifWFieldsBase + i, "harness_panic": fmt.Sprint(p)}
+						row = map[string]interface{}{"k": "hist", "id": verifWFieldsBase + i, "harness_panic": fmt.Sprint(p) + "\n" + string(debug.Stack())}
 					}
 				}()
 				row = h.run()
